@@ -20,7 +20,7 @@ def h_pair(n: int, k: int, s1: int, r1: int, s2: int, r2: int, t2: bool, post: i
     s = build2(n, k, s1, r1, s2, r2, t2, SIGMA1)
     if s is None:
         return None
-    p = pick(post, 0, 5)
+    p = pick(post, 0, 6)
     if p is None:
         return None
     if p == 1:
@@ -33,6 +33,14 @@ def h_pair(n: int, k: int, s1: int, r1: int, s2: int, r2: int, t2: bool, post: i
         s = AnsiString(str(s))
     elif p == 5:
         s = AnsiStr(s)
+    elif p == 6:
+        # an AnsiStr from which other values were derived still renders what it reports
+        s = AnsiStr(s)
+        s.remove_formatting('red')
+        s.remove_formatting()
+        s.unformat_matching('a')
+        s.apply_formatting('underline', 0, 1, topmost=False)
+        AnsiString(s).remove_formatting()
     bad = check_render(s)
     if bad:
         return bad + (p,)
@@ -103,7 +111,7 @@ def obligations(tier):
     obs = [selftest_ob()]
     z = dict(s2=0, r2=0, t2=False)
     obs.append(Ob('pair/b1/n2', h_pair, dict(n=2, k=1, **z), need=('rendered', 'starts-unstyled'), budget=600,
-                  bounds='n=2, 1 apply step, 6 post-operations', kinds=KINDS))
+                  bounds='n=2, 1 apply step, 7 post-operations', kinds=KINDS))
     n2 = 2 if tier == 'quick' else 3
     for s1 in range(len(SIGMA1)):
         for r1 in range(len(ranges(n2))):
